@@ -72,7 +72,7 @@ def a2(led, rid, ctx):
 
 def a4(led, rid, ctx):
     lib = ctx.lib
-    f = lib.method("ConstraintSatisfactionSolver", "solve_internal")
+    f = __import__("lint.props.shared", fromlist=["x"]).solve_internal(lib)
     cs = f.calls_named("restart_during_search")
     led.check(len(cs) >= 1, rid, "restart-site", f.span, "", "no restart site in solve_internal")
     for c in cs:
